@@ -46,11 +46,14 @@ pub enum CigarSel {
     Ops(usize),
     /// `(1I)*n`: n ops, no reference span (alignment_span of a long CIGAR being 0)
     OpsIns(usize),
+    /// as `Ops(n)`, but the record's SEQ (and QUAL) is `*` unless a length is chosen explicitly —
+    /// the secondary alignment of an ultra-long read (placeholder `0S<m>N`)
+    OpsStarSeq(usize),
 }
 
 impl CigarSel {
     pub fn heavy(self) -> bool {
-        matches!(self, CigarSel::Ops(n) | CigarSel::OpsIns(n) if n > 1000) || matches!(self, CigarSel::M(n) if n > 1000)
+        matches!(self, CigarSel::Ops(n) | CigarSel::OpsIns(n) | CigarSel::OpsStarSeq(n) if n > 1000) || matches!(self, CigarSel::M(n) if n > 1000)
     }
     pub fn ops(self) -> Vec<(u8, u64)> {
         match self {
@@ -62,7 +65,7 @@ impl CigarSel {
             CigarSel::BigN => vec![(0, 1), (3, (1 << 28) - 1), (0, 1)],
             CigarSel::BigM => vec![(0, (1 << 28) - 1)],
             CigarSel::TooBig => vec![(0, 1 << 28)],
-            CigarSel::Ops(n) => (0..n).map(|i| (if i % 2 == 0 { 0 } else { 2 }, 1)).collect(),
+            CigarSel::Ops(n) | CigarSel::OpsStarSeq(n) => (0..n).map(|i| (if i % 2 == 0 { 0 } else { 2 }, 1)).collect(),
             CigarSel::OpsIns(n) => (0..n).map(|_| (1, 1)).collect(),
         }
     }
@@ -368,7 +371,7 @@ impl Alphabet {
             a.cigars.extend([CigarSel::Ops(65535), CigarSel::Ops(65536), CigarSel::Ops(70000)]);
             a.seqlens.push(SeqLen::Fixed(65536));
             if wide {
-                a.cigars.push(CigarSel::OpsIns(65536));
+                a.cigars.extend([CigarSel::OpsIns(65536), CigarSel::OpsStarSeq(65536)]);
             }
         }
         a
@@ -383,7 +386,7 @@ impl Alphabet {
         // drop the purely BAM-side overflow entries that C05 owns; keep one of each class
         a.poss.retain(|p| *p != Some((1 << 32) + 1));
         if heavy {
-            a.cigars.push(CigarSel::Ops(65536));
+            a.cigars.extend([CigarSel::Ops(65536), CigarSel::OpsStarSeq(65536)]);
             if wide {
                 a.cigars.extend([CigarSel::Ops(65535), CigarSel::OpsIns(65536)]);
             }
@@ -535,6 +538,7 @@ pub fn gen_record(ch: &Chooser, a: &Alphabet, base: &Base, n_ref: usize) -> Gene
     let rl: u64 = cigar.iter().filter(|(k, _)| crate::model::consumes_read(*k)).map(|(_, l)| *l).sum();
     let n = match seqlen {
         SeqLen::Fixed(n) => n,
+        SeqLen::Auto(_) if matches!(cigar_sel, CigarSel::OpsStarSeq(_)) => 0,
         SeqLen::Auto(d) => {
             if rl == 0 {
                 d
